@@ -238,6 +238,18 @@ class HeapOps(HeapExecutor):
     def know_item(self, st, recv, v):
         if self.is_smartlist(recv, st):
             self.know(st, v, ['BaseSection', 'BaseProperty'])
+            return
+        # a list read from a field with declared item classes (Validation.errors)
+        from .heap import LIST_ITEM_TYPES
+        if recv.op == 'select':
+            arr = recv.args[0]
+            while arr.op == 'store':
+                arr = arr.args[0]
+            if arr.op == 'const':
+                fld = arr.args[0].split('_', 1)[1] if '_' in arr.args[0] else ''
+                for name, classes in LIST_ITEM_TYPES.items():
+                    if fld.endswith(name):
+                        self.know(st, v, list(classes))
 
     def raw_setitem(self, recv, idx, v, st, node):
         l = self.rv(recv)
